@@ -589,9 +589,24 @@ func (s *Stream) CloseRead() {
 		s.inclosed.set()
 	}
 	discarded := s.in.end - s.in.start
+	s.discardInbufLocked()
 	s.in.discardBefore(s.in.end)
 	s.inUnlock()
 	s.conn.handleStreamBytesReadOffLoop(discarded) // must be done with ingate unlocked
+}
+
+// discardInbufLocked drops the fast-path read buffer.
+//
+// s.inbuf aliases a buffer owned by s.in. It must be dropped before s.in releases
+// that buffer for reuse, or subsequent fast-path reads would return whatever data
+// the buffer's next user stores in it.
+//
+// The caller must hold ingate.
+func (s *Stream) discardInbufLocked() {
+	s.inbufmu.Lock()
+	s.inbuf = nil
+	s.inbufoff = 0
+	s.inbufmu.Unlock()
 }
 
 // CloseWrite aborts writes on the stream.
@@ -849,6 +864,7 @@ func (s *Stream) handleReset(code uint64, finalSize int64) error {
 		}
 	}
 	s.conn.handleStreamBytesReadOnLoop(finalSize - s.in.start)
+	s.discardInbufLocked()
 	s.in.discardBefore(s.in.end)
 	s.inresetcode = int64(code)
 	s.insize = finalSize
